@@ -105,6 +105,26 @@ fn gen_short(rng: &mut Rng, miri: bool, classes: &[&'static str]) -> Program {
     Program { cap, class, async_ctor: rng.chance(1, 2), threads, delay_permille: *rng.pick(&[0, 100, 300, 600]) }
 }
 
+/// handle churn: every thread owns both sides and only clones (all ways), converts, drops and reads counts;
+/// a few threads also move values so that disconnect/refill paths stay in play
+fn gen_churn(rng: &mut Rng, classes: &[&'static str], per_thread: u32, maxthreads: u64) -> Program {
+    let n = 2 + rng.below(maxthreads.max(2) - 1) as usize;
+    let mut threads = Vec::new();
+    for t in 0..n {
+        let mut ops = Vec::new();
+        for _ in 0..24 {
+            let o = if t == 0 && rng.chance(1, 3) {
+                *rng.pick(&[Op::TrySend, Op::TryRecv, Op::Drain, Op::Len])
+            } else {
+                *rng.pick(&[Op::CloneS(false), Op::CloneS(true), Op::CloneS(false), Op::CloneS(true), Op::DropS, Op::DropS, Op::ConvS, Op::CloneR(false), Op::CloneR(true), Op::DropR, Op::ConvR, Op::SenderCount, Op::ReceiverCount, Op::SenderCount])
+            };
+            ops.push(o);
+        }
+        threads.push(ThreadPlan { sender: Some(rng.chance(1, 2)), receiver: Some(rng.chance(1, 2)), ops, reps: per_thread / 24 + 1, until_end: false });
+    }
+    Program { cap: *rng.pick(&[Some(0), Some(2), None]), class: *rng.pick(classes), async_ctor: rng.chance(1, 2), threads, delay_permille: *rng.pick(&[0, 0, 50]) }
+}
+
 #[derive(Clone, Copy, PartialEq)]
 enum Ending {
     Natural,
@@ -201,6 +221,7 @@ fn run_program<T: Payload>(p: &Program, seed: u64, long: bool, closer_delay_us: 
     for (i, tp) in p.threads.iter().enumerate() {
         let mut ctx = ThreadCtx::<T>::new(i as u16, payload::FIRST_UNIQUE + i as u64 * span, payload::FIRST_UNIQUE + (i as u64 + 1) * span);
         ctx.pat = seed ^ (i as u64) << 8;
+        ctx.keep_one = long && tp.sender.is_some() && tp.receiver.is_some() && tp.ops.len() == 24;
         if let Some(a) = tp.sender {
             ctx.senders.push(s.clone_as(a));
             s0 += 1;
@@ -386,14 +407,14 @@ fn main() {
     let budget_s = kverif::arg_u64(&a, "budget-s", 3600) as f64;
     let classes_arg = kverif::arg_str(&a, "classes", "").to_string();
     let classes: Vec<&'static str> = if classes_arg.is_empty() {
-        if mode == "long" { UNIQUE_CLASSES.to_vec() } else { ALL_CLASSES.to_vec() }
+        if mode != "short" { UNIQUE_CLASSES.to_vec() } else { ALL_CLASSES.to_vec() }
     } else {
         classes_arg.split(',').map(|c| *ALL_CLASSES.iter().find(|x| **x == c).expect("class")).collect()
     };
     let caps_arg = kverif::arg_str(&a, "caps", "0,1,2,7,u").to_string();
     let caps: Vec<Option<usize>> = caps_arg.split(',').map(parse_cap).collect();
     let miri = cfg!(miri);
-    payload::init(if cfg!(miri) { 1 << 10 } else if mode == "long" { 1 << 22 } else { 1 << 11 });
+    payload::init(if cfg!(miri) { 1 << 10 } else if mode != "short" { 1 << 22 } else { 1 << 11 });
     fp::install();
     #[cfg(feature = "tsan")]
     kverif::tsan::install();
@@ -430,7 +451,9 @@ fn main() {
         if t0.elapsed().as_secs_f64() > budget_s {
             break;
         }
-        let (p, closer_span) = if mode == "long" {
+        let (p, closer_span) = if mode == "churn" {
+            (gen_churn(&mut prng, &classes, per_thread, maxthreads), 0)
+        } else if mode == "long" {
             let (p, _e) = gen_long(&mut prng, &classes, &caps, per_thread, maxthreads);
             (p, per_thread as u64 / 4 + 50)
         } else {
@@ -444,7 +467,7 @@ fn main() {
             fn go<T: Payload>(p: &Program, seed: u64, long: bool, cd: u64, g: Duration, c: Duration) -> (Result<RunOut, RunErr>, bool) {
                 (run_program::<T>(p, seed, long, cd, g, c), T::UNIQUE)
             }
-            let (r, unique) = with_class!(p.class, go(&p, rseed, mode == "long", closer_delay, grace, cap_wall));
+            let (r, unique) = with_class!(p.class, go(&p, rseed, mode != "short", closer_delay, grace, cap_wall));
             let replay = format!("hist --mode {} --seed {} --only-program {} --programs {} --runs {} --per-thread {} --max-threads {} --classes {} --caps {}", mode, seed, pi, pi + 1, runs.max(200), per_thread, maxthreads, classes.join(","), caps_arg);
             match r {
                 Err(RunErr::Stuck(v, p)) => {
@@ -493,7 +516,7 @@ fn main() {
                     for v in vs {
                         add_viol(&mut ag, v.prop, v.msg, &p, ev, &v.events, replay.clone());
                     }
-                    if mode != "long" && !had {
+                    if mode == "short" && !had {
                         let mut m = RefChan::new(p.cap);
                         m.sc = out.s0;
                         m.rc = out.r0;
